@@ -322,6 +322,20 @@ def r5(ctx):
         mcalls = [c for c in walk_own(gr.node) if isinstance(c, ast.Call) and isinstance(c.func, ast.Attribute) and c.func.attr in ("match", "fullmatch")]
         for mc in mcalls:
             lp = [p_ for p_ in _parents_of(mc, gr.node) if isinstance(p_, (ast.For, ast.While))]
+            comps = [p_ for p_ in _parents_of(mc, gr.node) if isinstance(p_, (ast.ListComp, ast.GeneratorExp, ast.SetComp))]
+            if not lp and comps:
+                # the loop is a comprehension over the table: the match is its element (evaluated for every item that passes the
+                # filters - so there must be none) or its first filter (evaluated for every item)
+                c0 = comps[0]
+                between = _parents_of(mc, c0)
+                if len(c0.generators) != 1 or any(isinstance(b_, (ast.IfExp, ast.BoolOp, ast.Lambda)) for b_ in between):
+                    ctx.undecided("C16.R5", gr, "the pattern match of getRoute is evaluated conditionally inside a comprehension")
+                g0 = c0.generators[0]
+                in_first_if = bool(g0.ifs) and any(x is mc for x in ast.walk(g0.ifs[0]))
+                extra = [norm(f_) for f_ in (g0.ifs if not in_first_if else [])]
+                ctx.check(not extra, "C16.R5", gr, "every registered route of the method is matched against the path (no pre-filter)",
+                          "a route skipped by a shortcut test never gets to match: a request the documented pattern accepts is answered 404", witness=extra)
+                continue
             if not lp or cfg.node_of(lp[0]) is None or cfg.node_of(mc) is None:
                 ctx.undecided("C16.R5", gr, "the pattern match of getRoute is not inside a loop")
             loop_conds = {(id(t), p) for (t, p) in cfg.conditions_of(cfg.node_of(lp[0]).id)}
